@@ -356,6 +356,51 @@ Proof.
   intros sp [<-|[<-|[]]] _; reflexivity.
 Qed.
 
+(* update(_inplace=True, a=v, b=w, ...) AS A WHOLE: for every non-empty keyword list whose
+   keywords are covered by `kw_ok` (managed non-collection attribute with a pool preparer,
+   value a proper scalar or MISSING), the model's final state is the specification's fold
+   over the keywords (each keyword an assignment seeing the result of the previous ones),
+   and when the call fails, it fails with the error class of the FIRST keyword the
+   specification rejects.  Only the receiver's cell is written (the failing call is not
+   atomic: earlier keywords stay assigned -- the specification only gives the error class). *)
+Theorem C05_update_top_refines_partial : forall ct h0 l c d k s p0 ps,
+  nth_error (heap s) l = Some (OInst c d) -> lookup_cls ct c = Some k ->
+  NoDup (map fst d) -> aok (absv (heap s) (VRef l)) = true ->
+  c_frozen k = false -> no_inval k -> fail_at s = None ->
+  forallb (kw_ok k) (p0 :: ps) = true ->
+  let h := mkh [] true true VMissing false None (Some (p0 :: ps)) [] None in
+  let ah := mkah [] true true AMissing false None (Some (akw (p0 :: ps))) [] None in
+  match run_helper ct l HUpdateTop h s with
+  | (Ok r, s') => r = VRef l /\
+                  spec_helper ct h0 (absv (heap s) (VRef l)) SUpdateTop ah = SOk (absv (heap s') (VRef l)) /\
+                  (forall i, i <> l -> nth_error (heap s') i = nth_error (heap s) i) /\
+                  length (heap s') = length (heap s)
+  | (Err e, s') => spec_helper ct h0 (absv (heap s) (VRef l)) SUpdateTop ah = SErr e /\
+                   (forall i, i <> l -> nth_error (heap s') i = nth_error (heap s) i) /\
+                   length (heap s') = length (heap s)
+  end.
+Proof.
+  intros ct h0 l c d k s p0 ps Hl Hc Hd Hok Hfz Hni Hfa Hkws.
+  exact (update_top_inplace_refines ct h0 l c k Hc Hfz Hni d s p0 ps Hl Hd Hok Hfa Hkws).
+Qed.
+
+Example C05_example_update_top :
+  forallb (kw_ok ex_k2) [(1, VInt 5); (3, VNone); (1, VBool true)] = true /\
+  (let '(r, s') := run_helper ex_ct2 0 HUpdateTop
+                     (mkh [] true true VMissing false None (Some [(1, VInt 5); (3, VNone); (1, VBool true)]) [] None) ex_state2 in
+   r = Ok (VRef 0) /\ nth_error (heap s') 0 = Some (OInst 2 [(1, VInt 2); (3, VNone)])) /\
+  spec_helper ex_ct2 [] (absv (heap ex_state2) (VRef 0)) SUpdateTop
+              (mkah [] true true AMissing false None (Some (akw [(1, VInt 5); (3, VNone); (1, VBool true)])) [] None)
+    = SOk (AInst 2 [(1, AInt 2); (3, ANone)]) /\
+  (* the first rejected keyword decides the error class: a3 = "x" is a TypeError *)
+  (let '(r, s') := run_helper ex_ct2 0 HUpdateTop
+                     (mkh [] true true VMissing false None (Some [(1, VInt 5); (3, VStr 7); (1, VNone)]) [] None) ex_state2 in
+   r = Err TypeErr /\ nth_error (heap s') 0 = Some (OInst 2 [(1, VInt 6); (3, VInt 9)])) /\
+  spec_helper ex_ct2 [] (absv (heap ex_state2) (VRef 0)) SUpdateTop
+              (mkah [] true true AMissing false None (Some (akw [(1, VInt 5); (3, VStr 7); (1, VNone)])) [] None)
+    = SErr TypeErr.
+Proof. vm_compute. repeat split. Qed.
+
 Print Assumptions C05_noop_if_false.
 Print Assumptions C05_noop_with_unchanged.
 Print Assumptions C05_noop_update_unchanged.
@@ -377,3 +422,5 @@ Print Assumptions C05_examples.
 Print Assumptions C05_transform_refines_partial.
 Print Assumptions C05_reset_refines_partial.
 Print Assumptions C05_examples_more.
+Print Assumptions C05_update_top_refines_partial.
+Print Assumptions C05_example_update_top.
